@@ -236,7 +236,9 @@ def gen_scenarios(rng, tier):
         out.append({"name": "cgio-write-" + fmt, "level": "cgio", "backend": fmt, "prep": None, "script": w})
         out.append({"name": "cgio-modify-" + fmt, "level": "cgio", "backend": fmt, "prep": w, "script": cgio_modify(rng, names)})
         mw, n = mll_write(rng, fmt)
-        out.append({"name": "mll-write-" + fmt, "level": "mll", "backend": fmt, "prep": None, "script": mw})
+        # on HDF5 every hard fault inside the array writers is run in both tiers (witness of the ignored H5Dclose status)
+        out.append({"name": "mll-write-" + fmt, "level": "mll", "backend": fmt, "prep": None, "script": mw,
+                    "exhaustive_ops": ("coord ", "field ") if fmt == "hdf5" else ()})
         out.append({"name": "mll-modify-" + fmt, "level": "mll", "backend": fmt, "prep": mw, "script": mll_modify(rng, n)})
         # compaction after a modification (the known HDF5 finding lives here)
         comp = ["open m adf", "new / Big0 Big_t R8 2000 %d" % rng.randint(1, 99), "new / Big1 Big_t R8 2000 %d" % rng.randint(1, 99),
@@ -342,7 +344,8 @@ def classify(sc, r, planned=()):
         return KNOWN_HDF5_COMPRESS if sc["name"].startswith("cgio-compress") else KNOWN_HDF5_CLOSE
     # ADFH ignores the status of H5Dclose (where libhdf5 flushes its raw-data buffer): HDF5 back end, a hard error injected
     # into a pwrite, every API status 0, content differs
-    if sc["backend"] == "hdf5" and hard and inj_names == {"pwrite"} and r["problem"] == "silent":
+    if sc["backend"] == "hdf5" and hard and "pwrite" in inj_names and inj_names <= {"pwrite", "lseek", "ftruncate", "close", "fsync"} and \
+            r["problem"] == "silent":
         return KNOWN_HDF5_SILENT
     return None
 
@@ -483,7 +486,7 @@ def run(ck):
         if big:
             for _ in range(40):
                 a, b = sorted(ck.rng.sample(cand, 2))
-                if a[0] != b[0]:
+                if a[0] != b[0] and [a, b] not in jobs:
                     jobs.append([a, b])
         futs = [pool.submit(fault_case, hs, ipso, sw, sc, base, j, nops, ideal, opmap) for j in jobs]
         ps = {"syscalls": len(tr), "cases": len(jobs), "reported": 0, "transparent": 0, "not_injected": 0, "problems": 0,
